@@ -96,11 +96,75 @@ def beh(p, e, probes, ns, meta=True):
                 if op[4] == 'resume':
                     res['ok'] = canon(ip.resume_parse(), meta)
                 out.append(res)
+            elif op[0] == 'session':
+                out.append({'session': run_session(p, as_input(e, op[1], ns), op[2], op[3], meta)})
             elif op[0] == 'lex':
                 out.append({'tokens': [canon(t, False) for t in p.lex(as_input(e, op[1], ns))]})
         except Exception as ex:
             out.append(canon_exc(ex))
     return out
+
+
+def run_session(p, inp, start, ops, meta):
+    """a small tree of interactive sessions driven by a seeded op list [[session index, op name], ...]; returns the log of canonical
+    outcomes.  Mutable and immutable sessions, forks, lexer steps, resume, feed_eof -- everything through the public API."""
+    sessions = [p.parse_interactive(inp, start=start)]
+    log = []
+
+    def is_imm(x):
+        return type(x).__name__ == 'ImmutableInteractiveParser'
+    for si, name in ops:
+        ip = sessions[si % len(sessions)]
+        try:
+            if name == 'step':
+                if is_imm(ip):
+                    # lex one token from a throw-away mutable copy, feed it through the immutable interface
+                    m = ip.as_mutable()
+                    tok = next(m.lexer_thread.lex(m.parser_state), None)
+                    if tok is None:
+                        log.append('eof')
+                    else:
+                        sessions.append(ip.feed_token(tok))
+                        log.append(['imm-fed', canon(tok, False)])
+                else:
+                    tok = next(ip.lexer_thread.lex(ip.parser_state), None)
+                    if tok is None:
+                        log.append('eof')
+                    else:
+                        ip.feed_token(tok)
+                        log.append(['fed', canon(tok, False)])
+            elif name == 'accepts':
+                log.append(['accepts', sorted(ip.accepts()), sorted(ip.choices().keys())])
+            elif name == 'copy':
+                sessions.append(ip.copy())
+                log.append('copied')
+            elif name == 'to_imm':
+                sessions.append(ip.as_immutable())
+                log.append('imm')
+            elif name == 'to_mut':
+                if is_imm(ip):
+                    sessions.append(ip.as_mutable())
+                log.append('mut')
+            elif name == 'exhaust':
+                r = ip.exhaust_lexer()
+                if is_imm(ip):
+                    sessions.append(r)
+                    log.append('imm-exhausted')
+                else:
+                    log.append(['exhausted', [canon(t, False) for t in r]])
+            elif name == 'resume':
+                log.append(['resumed', canon(ip.resume_parse(), meta)])
+            elif name == 'eof':
+                c = ip.as_mutable() if is_imm(ip) else ip.copy()
+                log.append(['eof', canon(c.feed_eof(), meta)])
+            elif name == 'pos':
+                st = ip.lexer_thread.state
+                log.append(['pos', st.line_ctr.char_pos, st.line_ctr.line, st.line_ctr.column, canon(st.last_token, False) if st.last_token is not None else None])
+        except Exception as ex:
+            log.append(canon_exc(ex))
+        if len(sessions) > 8:
+            sessions.pop(1)
+    return log
 
 
 def _lark_ns():
